@@ -94,6 +94,56 @@ CLAIMED = {
         "sets is not decided.",
         design_ref="DESIGN.md §4 C06",
     ),
+    "C07": dict(
+        technique=TECH + "finite octet decision tree of the item categoriser (all 256 octets), guard dominance on the "
+        "parenthesis depth, stored-value provenance of owner/class/TTL inheritance, typed unwrap / explicit-panic audit",
+        text="Decides narrow structural necessary conditions of C07: SourceBuf::next_item classifies every octet as the "
+        "presentation format says (space/tab/CR skipped, `(` `)` grouping, `;` comment, LF end of entry, `\"` quoted, "
+        "everything else unquoted); `)` decrements the depth only behind depth > 0 and LF ends an entry only at depth 0; "
+        "an entry starting with white space takes the last owner without replacing it, an explicit class/TTL is used and "
+        "remembered, a missing TTL falls back to $TTL then to the last TTL; no unwrap of a conversion error and no explicit "
+        "panic under a branch on file content (categoriser-typestate sites audited). Termination and totality for all byte "
+        "strings, the in-place cursor invariant and layout independence as a relation are not decided.",
+        design_ref="DESIGN.md §10.9 C07",
+    ),
+    "C08": dict(
+        technique=TECH + "arm tables of the zone read path (node state x position -> answer kind), exact-before-wildcard "
+        "lookup dominance, constructor constant tables of NodeAnswer",
+        text="Decides narrow structural necessary conditions of C08: at the queried name a cut goes to query_at_cut, a CNAME "
+        "marker to a CNAME answer, the NXDOMAIN marker to NXDOMAIN, an ordinary node to the RRset lookup; on the way down a "
+        "cut yields the referral (NS, DS, glue; no descent), the NXDOMAIN marker NXDOMAIN, other nodes descend; DS at a cut "
+        "is answered from the parent side, other types get the referral; the exact child is searched before the wildcard "
+        "child, a wildcard match answers for the wildcard node itself and never descends, no match is NXDOMAIN; present "
+        "RRset = data, absent = NODATA; NODATA/NXDOMAIN ask for the SOA with the right RCODE, referrals are not "
+        "authoritative. Correctness for every zone content, closest-encloser wildcard applicability, empty non-terminals "
+        "and independence from the update history are not decided.",
+        design_ref="DESIGN.md §10.9 C08",
+    ),
+    "C13": dict(
+        technique=TECH + "must-pass-through of mandatory bitmap types, guard tables of the cut / in-zone / opt-out "
+        "decisions, chain-closing dataflow (next name / next hash provenance), parameter provenance of every NSEC3 record",
+        text="Decides narrow structural necessary conditions of C13: every NSEC bitmap had RRSIG and NSEC added, NSEC3 adds "
+        "RRSIG only for authoritative owners and NSEC3PARAM at the apex; at a cut only NS and DS of the owner's own types are "
+        "listed; owners at or below the current cut are skipped, a cut is a non-apex owner with NS, the walk stops outside the "
+        "zone; inside the walk each NSEC points to the current owner and the last one back to the apex; NSEC3 records are "
+        "sorted canonically and de-duplicated before linking, each next hash comes from the following record and the last "
+        "from the first; every NSEC3 (owners and empty non-terminals) is built from the configured algorithm, flags, "
+        "iterations and salt and hashed with the same values; opt-out excludes only (flag, cut, no DS). Completeness of the "
+        "chain for every zone, hash values and proofs of absence are not decided.",
+        design_ref="DESIGN.md §10.9 C13",
+    ),
+    "C16": dict(
+        technique=TECH + "dataflow of the negotiated UDP limit (max/clamp/min call structure), guard dominance of the "
+        "truncation path, request-derived reply construction, written-slice provenance per transport, typed unwrap / "
+        "explicit-panic audit",
+        text="Decides narrow structural necessary conditions of C16: the EDNS middleware stores min(max(512, client size), "
+        "server hint clamped to [512, client size]) as the UDP limit; the mandatory middleware truncates only when the "
+        "response is longer than that limit (512 without a hint), sets TC and replaces the response by header + question + "
+        "OPT; error replies are started from the request (ID, question); stream connections write the length-prefixed slice, "
+        "the datagram server the bare message; no unwrap of a parse result and no explicit panic under request content in "
+        "the anchored server files. Exactly-once delivery, liveness, pipelining and connection aborts are not decided.",
+        design_ref="DESIGN.md §10.9 C16",
+    ),
     "C09": dict(
         technique=TECH + "version-argument provenance dataflow on read and write paths, who-may-write audit of "
         "version fields, lock-before-version dominance in the async writer constructor (pre-transform coroutine "
@@ -231,16 +281,6 @@ CLAIMED = {
 }
 
 NOT_APPLICABLE = {
-    "C07": "totality hinges on the in-place write<=start cursor invariant and tokenizer state; layout "
-           "independence is a relation over pairs of inputs: no shape-level necessary condition that "
-           "realistic breakage would violate (DESIGN.md §4 C07)",
-    "C08": "input/output behaviour of a tree-walk over all zone contents and update histories; "
-           "correctness is in which branch is taken for which data, not in pairing/ordering "
-           "(DESIGN.md §4 C08)",
-    "C13": "whole-zone invariants of a single-pass algorithm with data-dependent cut tracking; hash "
-           "values are value-level (DESIGN.md §4 C13)",
-    "C16": "exactly-once delivery and liveness are schedule properties; size discipline is runtime "
-           "composition of middleware; the framing clause is checked under C02.shim (DESIGN.md §4 C16)",
 }
 
 PENDING_REASON = "rule set designed (DESIGN.md §4) but not yet built in this round: not claimed until it runs"
